@@ -96,7 +96,7 @@ fn line_col(text: &str, off: usize) -> Option<(u32, u32)> {
     let before = &text[..off];
     let line = before.bytes().filter(|b| *b == b'\n').count();
     let start = before.rfind('\n').map(|i| i + 1).unwrap_or(0);
-    Some((line as u32, text[start..off].chars().count() as u32))
+    Some((line as u32, text[start..off].chars().map(|c| c.len_utf16()).sum::<usize>() as u32))
 }
 
 /// an unsubstituted `%{name}` placeholder of the message catalogue (not one echoed from the source text)
@@ -114,7 +114,7 @@ fn has_placeholder(msg: &str, text: &str) -> bool {
 }
 
 fn judge(text: &str, o: &Observed, completeness: bool) -> Result<(), (String, String)> {
-    let lines: Vec<u32> = text.split('\n').map(|l| l.chars().count() as u32).collect();
+    let lines: Vec<u32> = text.split('\n').map(|l| l.chars().map(|c| c.len_utf16()).sum::<usize>() as u32).collect();
     let known: BTreeSet<String> = DiagnosticCode::all().iter().map(|c| c.get_name().to_string()).collect();
     for d in &o.diags {
         let (sl, sc, el, ec) = d.range;
@@ -127,7 +127,7 @@ fn judge(text: &str, o: &Observed, completeness: bool) -> Result<(), (String, St
                 return Err((format!("range-line-out-of-document:{}", d.code), format!("{:?} but the document has {} lines", d, lines.len())));
             }
             if c > lines[l as usize] {
-                return Err((format!("range-character-beyond-line:{}", d.code), format!("{:?} but line {} has {} characters", d, l, lines[l as usize])));
+                return Err((format!("range-character-beyond-line:{}", d.code), format!("{:?} but line {} has {} UTF-16 code units", d, l, lines[l as usize])));
             }
         }
         if !known.contains(d.code.as_str()) || d.code == "none" {
